@@ -246,23 +246,19 @@ Theorem C05_snapshot_first_step : forall B fxc s l b0,
   pcl l = W0 false -> tail s = Some b0 -> step B true fxc s l = Some (s, goto l (W1 false b0 [])).
 Proof. intros. apply snapshot_first_step; auto. Qed.
 
-(* (6) is_empty (code after fix 1a8142c), every schedule.  c: thread t has just executed its 520
-   step on a non-empty bucket (pc E1 b0).  If that call later returns TRUE then, of everything
-   published at c: nothing is in the head block b0; nothing is in its successor; and if b0 has a
-   successor at all, more than B threads exist (all B slots of the full successor were claimed
-   and unpublished when it was inspected) - so with at most B threads nothing published at c is
-   anywhere in the chain from b0.  If it returns FALSE, some slot is published.  (With more than
-   B threads is_empty = true can miss completed pushes resident deeper than the successor.) *)
+(* (6) is_empty (code after fixes 1a8142c and 0248974), every schedule, ANY number of threads.  c: thread t
+   has just executed its 520 step on a non-empty bucket (pc E1 b0).  If that call later returns TRUE
+   then nothing that was published at c sits in any block reachable from b0 (every push that
+   completed before the call began and was resident in the live chain would have been seen); if it
+   returns FALSE, some slot is published.  Before fix 0248974 this needed "at most B threads"
+   (C05_is_empty_beyond_B_threads_refuted_before_fix). *)
 Theorem C05_is_empty_sound : forall B ps sched0 sched t l b0, 1 <= B ->
   let c := fst (exec (step B true true) site (init_config ps) sched0) in
   nth_error (snd c) t = Some l -> pcl l = E1 b0 ->
   let h := heap (fst c) in
   let c' := fst (exec (step B true true) site c sched) in
   forall l' rs1 r, nth_error (snd c') t = Some l' -> results l' = rs1 ++ REmpty r :: results l ->
-  (r = true ->
-     (forall i, ~ pub h b0 i) /\
-     (forall nb, bnxt (getb h b0) = Some nb -> (forall i, ~ pub h nb i) /\ B < length (snd c)) /\
-     (length (snd c) <= B -> forall d i, Reach h (Some b0) d -> ~ pub h d i)) /\
+  (r = true -> forall d i, Reach h (Some b0) d -> ~ pub h d i) /\
   (r = false -> exists d i, pub (heap (fst c')) d i).
 Proof.
   intros B ps sched0 sched t l b0 HB c Hl Hpc h c' l' rs1 r Hl' Er.
@@ -435,26 +431,25 @@ Theorem C05_spec_conservation_on_model : forall c : case, known_class c = None -
 Proof. exact spec_conservation_on_model. Qed.
 
 (* (12) fourth stage: clause S3.
-   S3 IS FALSE on the model outside the late-claim class when more than B = 64 threads push
-   concurrently (C05_is_empty_true_beyond_B_threads: 67 threads; 64 completed pushes resident in the
-   oldest block, all 64 slots of its successor claimed and unpublished, a fresh head: is_empty
-   returns true).  The real code does the same on this schedule (replayed: model and implementation
-   agree step by step), so this is the CODE - is_empty inspects only the head block and its
-   successor - exactly the bound stated in C05_is_empty_sound; the wf hypothesis of the conjunction
-   must therefore contain "at most 64 threads".
+   Defect C05-is-empty-lookback-one-block (fixed by 0248974): with more than B = 64 concurrent pushers
+   the is_empty of the code before the fix - head block and ONE successor - returned true over 64
+   completed resident pushes (67-thread witness, reproduced on the real code); the chain-walking
+   is_empty returns false on the same schedule and the whole checker accepts the run.
    NOT PROVED: C05_spec_completeness_on_model (S3 under done) and hence C05_spec_ok_on_model.
    Proved towards it: the publication column of the push table is tied to the configuration
-   (C05_spec_pub_positions_on_model: an entry with a 503 position is a completed push whose value
-   sits in a published slot).  Still missing: the positions of 530 / 520 / 541 and empty_end in the
-   ledger, the alignment of data_with / is_empty / clear_with calls with them, a detach ledger (which
-   541 detached which block) for the `clears` disjunct of `accounts`, and the use of
+   (C05_spec_pub_positions_on_model).  Still missing: the positions of 530 / 520 / 541 and empty_end
+   in the ledger, the alignment of data_with / is_empty / clear_with calls with them, a detach ledger
+   (which 541 detached which block) for the `clears` disjunct of `accounts`, and the use of
    C05_snapshot_sees_completed / C05_is_empty_sound along the trace. *)
-Theorem C05_is_empty_true_beyond_B_threads :
+Theorem C05_is_empty_beyond_B_threads_refuted_before_fix :
   length (fst many_case) = 67 /\ known_class many_case = None /\
+  (let cf := fst (exec_full (step_lookback1 BS) site rr_fuel (init_config (progs_of many_case)) (map N.to_nat (snd many_case))) in
+   option_map results (nth_error (snd cf) 66) = Some [REmpty true] /\
+   length (concat (final_data BS true true (fst cf))) = 129) /\
   (let '(_, rss, done, final, _) := run_case many_case in
-   nth 66 rss [] = [REmpty true] /\ done = true /\ length (concat final) = 129) /\
-  spec_ok many_case (run_case many_case) = false.
-Proof. exact is_empty_true_beyond_B_threads. Qed.
+   nth 66 rss [] = [REmpty false] /\ done = true /\ length (concat final) = 129) /\
+  spec_ok many_case (run_case many_case) = true.
+Proof. exact is_empty_beyond_B_threads_refuted_before_fix. Qed.
 
 (* a racing scheduled case inside the hypotheses: 65 pushes crossing the block boundary, is_empty in
    the hand-over window, a snapshot overlapping the 65th push, a clear at the end *)
